@@ -81,6 +81,36 @@ type stats struct {
 	seqs      int
 	roots     map[string]struct{}
 	maxNest   int
+
+	// per-worker reusable resources (a stats object belongs to exactly one goroutine)
+	free []db.DB           // emptied memorydb instances ("fresh store" = a store with no keys)
+	bsw  *state.BlockState // built once by state.NewBlockState, re-pointed at each new StateDB
+}
+
+// getStore returns an empty store. Constructing a memorydb costs a viper/logger set-up per call,
+// so emptied instances are reused; a memorydb is a plain map, an emptied one is as good as new.
+func (st *stats) getStore() db.DB {
+	if n := len(st.free); n > 0 {
+		s := st.free[n-1]
+		st.free = st.free[:n-1]
+		return s
+	}
+	return newStore()
+}
+
+func (st *stats) putStore(s db.DB) {
+	for it := s.Iterator(nil, nil); it.Valid(); it.Next() {
+		s.Delete(it.Key())
+	}
+	st.free = append(st.free, s)
+}
+
+func (st *stats) blockState(sdb *statedb.StateDB) *state.BlockState {
+	if st.bsw == nil {
+		st.bsw = state.NewBlockState(sdb)
+	}
+	st.bsw.StateDB = sdb
+	return st.bsw
 }
 
 func newStats() *stats { return &stats{ops: map[string]int{}, roots: map[string]struct{}{}} }
@@ -104,16 +134,23 @@ type run struct {
 func newRun(level byte, u *universe, nest int, st *stats) *run {
 	r := &run{level: level, u: u, nest: nest, st: st}
 	r.m = newModel(level, len(u.ids), len(u.keys))
-	r.store = newStore()
+	r.store = st.getStore()
 	r.attach(nil)
 	return r
+}
+
+func (r *run) release() {
+	if r.store != nil {
+		r.st.putStore(r.store)
+		r.store = nil
+	}
 }
 
 func (r *run) attach(root []byte) {
 	r.sdb = statedb.NewStateDB(r.store, root, false)
 	r.bs = nil
 	if r.level == 'B' {
-		r.bs = state.NewBlockState(r.sdb)
+		r.bs = r.st.blockState(r.sdb)
 	}
 	r.h = make([][]*statedb.ContractState, len(r.u.ids))
 }
@@ -391,7 +428,9 @@ func (r *run) update(check bool) {
 // freshRoot feeds a fresh StateDB on a fresh store with exactly the model's visible state.
 func (r *run) freshRoot() ([]byte, [][]byte) {
 	m := r.m
-	sdb := statedb.NewStateDB(newStore(), nil, false)
+	fs := r.st.getStore()
+	defer r.st.putStore(fs)
+	sdb := statedb.NewStateDB(fs, nil, false)
 	for a, v := range m.acc {
 		if v.Exists {
 			st := &types.State{Nonce: v.Nonce}
